@@ -6140,6 +6140,8 @@ class Path(Shape, MutableSequence):
     def vertical(self, *y_points, relative=False, **kwargs):
         for index in range(len(y_points)):
             start_pos = self.current_point
+            if start_pos is None:
+                raise ValueError("vertical line requires a current point")
             if relative:
                 self.append(
                     Line(
@@ -6161,6 +6163,8 @@ class Path(Shape, MutableSequence):
     def horizontal(self, *x_points, relative=False, **kwargs):
         for index in range(len(x_points)):
             start_pos = self.current_point
+            if start_pos is None:
+                raise ValueError("horizontal line requires a current point")
             if relative:
                 self.append(
                     Line(
@@ -6184,6 +6188,8 @@ class Path(Shape, MutableSequence):
         the second control point in the previous path."""
         for index in range(len(points)):
             start_pos = self.current_point
+            if start_pos is None:
+                raise ValueError("smooth curve requires a current point")
             control1 = self._smooth_control(QuadraticBezier)
             end_pos = points[index]
             if end_pos in ("z", "Z"):
@@ -6222,6 +6228,8 @@ class Path(Shape, MutableSequence):
         the second control point in the previous path."""
         for index in range(0, len(points), 2):
             start_pos = self.current_point
+            if start_pos is None:
+                raise ValueError("smooth curve requires a current point")
             control1 = self._smooth_control(CubicBezier)
             control2 = points[index]
 
@@ -6302,6 +6310,8 @@ class Path(Shape, MutableSequence):
     def arc(self, *arc_args, relative=False, **kwargs):
         for index in range(0, len(arc_args), 6):
             start_pos = self.current_point
+            if start_pos is None:
+                raise ValueError("arc requires a current point")
             rx = arc_args[index]
             ry = arc_args[index + 1]
             if rx < 0:
